@@ -86,7 +86,65 @@ def classify(value):
     return verdicts[0]
 
 
+OPT_CHILD = r'''
+import json, sys
+sys.dont_write_bytecode = True
+sys.path.insert(0, %(verif)r); sys.path.insert(0, %(src)r)
+from vf import core; core.import_guard()
+from vf.checks import c15
+out = {"violations": {}, "evaluations": 0, "nontrivial": 0, "optimize": sys.flags.optimize}
+for job in json.loads(sys.stdin.read()):
+    part = c15.work(tuple(job))
+    out["evaluations"] += part.evaluations
+    out["nontrivial"] += part.nontrivial
+    for key, val in part.violations.items():
+        out["violations"].setdefault(key, [val[0], val[1]])
+print(json.dumps(out))
+'''
+
+
+def work_optimized(job):
+    """ENVIRONMENT: the interpreter started with -O / -OO (assert statements and docstrings stripped): the same jobs
+    in a child interpreter; the verdicts are judged by the same oracle there."""
+    import subprocess  # pylint: disable=import-outside-toplevel
+    import sys  # pylint: disable=import-outside-toplevel
+    from ..core import REPO_SRC, VERIF, HarnessError  # pylint: disable=import-outside-toplevel
+    _tag, flag, jobs = job
+    part = Partial()
+    res = subprocess.run([sys.executable, flag, '-c', OPT_CHILD % {'verif': VERIF, 'src': REPO_SRC}],
+                         input=json.dumps(jobs), capture_output=True, text=True, check=False)
+    if res.returncode != 0:
+        raise HarnessError(f'python {flag} child failed: {res.stderr[-800:]}')
+    data = json.loads(res.stdout.strip().splitlines()[-1])
+    if data['optimize'] != len(flag) - 1:
+        raise HarnessError(f'child did not run with {flag}')
+    part.evaluations += data['evaluations']
+    part.states += data['evaluations']
+    part.transitions += data['evaluations']
+    part.nontrivial += data['nontrivial']
+    part.extra[f'parsed_under_python{flag}'] += data['evaluations']
+    part.outcome(f'python{flag}')
+    for key, (what, case) in data['violations'].items():
+        part.violation(f'{key}:python{flag}', f'interpreter started with {flag}: {what}', dict(case or {}, pyflag=flag))
+    return part
+
+
+def judge_optimized(case):
+    import subprocess  # pylint: disable=import-outside-toplevel
+    import sys  # pylint: disable=import-outside-toplevel
+    from ..core import REPO_SRC, VERIF  # pylint: disable=import-outside-toplevel
+    flag = case['pyflag']
+    inner = {k: v for k, v in case.items() if k != 'pyflag'}
+    code = ('import json, sys\nsys.dont_write_bytecode = True\nsys.path.insert(0, %r); sys.path.insert(0, %r)\n'
+            'from vf import core; core.import_guard()\nfrom vf.checks import c15\n'
+            'print(json.dumps(c15.judge(json.loads(sys.stdin.read()))))\n' % (VERIF, REPO_SRC))
+    res = subprocess.run([sys.executable, flag, '-c', code], input=json.dumps(inner), capture_output=True, text=True, check=True)
+    return [(f'{k}:python{flag}', w) for k, w in json.loads(res.stdout.strip().splitlines()[-1])]
+
+
 def judge(case):
+    if case.get('pyflag'):
+        return judge_optimized(case)
     if case.get('via_file'):
         part = Partial()
         _one(case, part, False)
@@ -389,14 +447,23 @@ def explore(ctx):
             if name.startswith('large'):
                 continue
             jobs += [('pairs', name, seed, i, 8) for i in range(8)]
-    for part in pmap(work, jobs):
+    small = [list(j) for j in jobs if j[0] in ('toplevel', 'outevents') or (j[0] == 'single' and not j[1].startswith('large'))]
+    nchunk = 6
+    optjobs = [('opt', flag, small[i::nchunk]) for flag in ('-O', '-OO') for i in range(nchunk)]
+    for part in pmap(_dispatch, [(work, j) for j in jobs] + [(work_optimized, j) for j in optjobs]):
         ctx.merge(part)
     ctx.rule = ('all single faults (delete key / retype to 11 JSON values / retag to every known class tag / '
                 'invalid identifiers / list emptied, element dropped, duplicated / int variants) at every JSON '
                 'node of every seed document' + (', all pairs of faults on the 1-node seeds' if ctx.thorough else '') +
                 '; every out-event signature over 8 reply types x <=2 formals x 3 directions; non-trivial = '
-                'the parser did not simply return a result; states = distinct mutated documents')
+                'the parser did not simply return a result; states = distinct mutated documents; the out-event, top-level and '
+                '1-node single-fault families additionally in child interpreters started with -O and with -OO')
     ctx.bounds = {'seeds': 'large document + all 1-node' + (' and 2-node' if ctx.thorough else '') + ' documents',
                   'faults_per_document': 2 if ctx.thorough else 1}
     ctx.assumptions += ['input is always valid JSON (orjson decode errors are outside the statement)']
     ctx.min_outcomes = 3
+
+
+def _dispatch(item):
+    fn, job = item
+    return fn(job)
